@@ -4,12 +4,12 @@
 package walletsim
 
 import (
-	"strings"
 	"bytes"
 	"fmt"
 	"os"
 	"path/filepath"
 	"sort"
+	"strings"
 	"time"
 
 	"github.com/btcsuite/btcd/btcec/v2"
